@@ -281,4 +281,100 @@ example :
       [[10, 4], [4], [0], [10, 0, 1], [10, 2, 3], [10, 4], [4]] :=
   ⟨Readme5.hyp, SP.readme_stateLaw 5, rfl, by decide, Plain5.hyp, fun _ => trivial, by decide⟩
 
+/-! ## The façade of `TDV.SDLApi` itself: where its assumed iterator cannot be met -/
+
+/-- **Full-strength statement (FALSE).**  Every iterator class that meets the interface makes the façade behave
+as `TDV.SDLApi` (and so as its reference `SDLApi.Ref`, `SDLApi.refines_ref`) over the same `epochs`, on every
+well-used history in which no dropped iterator is used. -/
+def refines_sdlapi_statement : Prop :=
+  ∀ (X T Wd : Type) (IC : IterClass X T Wd) (epochs : Nat → List Item) (M : Meets IC epochs) (fw : Nat → Wd)
+    (w0 : Wd), (∀ n, M.WN (fw n)) → M.AW w0 0 → ∀ ops : List Op,
+    wellUsed epochs (Sys.init (some 0)) ops = true → attached epochs SDLApi.Sys.init ops = true →
+    Fac.obs IC fw (Sys.init w0) ops = SDLApi.obs epochs false SDLApi.Sys.init ops
+
+/-- **Negation witness.**  Epoch `e` is `[e]`: one batch of epoch 0, `sd = state_dict()`, a NEW loader,
+`load_state_dict(sd)`, `for` loop (nothing left, `StopIteration`), `for` loop: the iterator that restores the
+sampler's generator starts epoch 1 (as C01 demands: "every following epoch"); `TDV.SDLApi` and `SDLApi.Ref` start
+"the 0-th stream of this loader object", epoch 0 again.  The stream index `g` of `TDV.SDLApi` is a counter of the
+loader object that `load_state_dict` does not touch; no real iterator with epoch-dependent streams can meet
+that.  (The Python code behaves like the real iterator models — replayed by `harness/props/e2e_parts.py`.) -/
+theorem refines_sdlapi_statement_false : ¬ refines_sdlapi_statement := by
+  intro h
+  have h1 := h _ _ _ _ TDV.Loader.epochIs (meetsIdeal _) ifw (some 0) (fun _ => trivial) rfl
+    [.iter, .next, .stateDict, .fresh, .load 0, .iter, .next, .iter, .next] (by decide) (by decide)
+  have h2 := congrArg (List.map TDV.Loader.Obs.code) h1
+  revert h2
+  decide
+
+/-- **The provable restriction**: all epochs alike (sequential / fixed-order samplers, iterable datasets).  Then
+the façade over the real iterator IS `TDV.SDLApi`, and by `SDLApi.refines_ref` its reference. -/
+theorem refines_sdlapi_partial {X T Wd : Type} {IC : IterClass X T Wd} {epochs : Nat → List Item}
+    (M : Meets IC epochs) (fw : Nat → Wd) (w0 : Wd) (hfw : ∀ n, M.WN (fw n)) (hw0 : M.AW w0 0)
+    (hconst : ∀ e e', epochs e = epochs e') (ops : List Op)
+    (hw : wellUsed epochs (Sys.init (some 0)) ops = true) (ha : attached epochs SDLApi.Sys.init ops = true) :
+    Fac.obs IC fw (Sys.init w0) ops = SDLApi.obs epochs false SDLApi.Sys.init ops ∧
+      Fac.obs IC fw (Sys.init w0) ops = SDLApi.Ref.obs epochs true SDLApi.Ref.RSys.init ops := by
+  have h := gen_refines M fw hfw w0 hw0 ops hw
+  rw [ideal_eq_sdlapi epochs hconst ops hw ha] at h
+  exact ⟨h, by rw [h, SDLApi.refines_ref]⟩
+
+/-- Non-vacuity of `refines_sdlapi_partial` (Seq5: all epochs alike), and the mismatch on the REAL single-process
+model with a `RandomSampler` (`Rand3`: epoch 0 is `0,1,2`, epoch 1 is `1,2,0`; new loaders have another generator
+state): after resuming epoch 0 into a new loader the following epoch is `1,2,0` — the original's epoch 1. -/
+example :
+    (∀ e e', Seq5.epochs e = Seq5.epochs e') ∧
+    (Fac.obs (spIC Rand3.S Rand3.Da Rand3.c) Rand3.fw (Sys.init Rand3.w0)
+      [.iter, .next, .next, .next, .next, .iter, .next, .next, .next, .next]).map flat =
+      [[0], [11, 0], [11, 1], [11, 2], [4], [0], [11, 1], [11, 2], [11, 0], [4]] ∧
+    (Fac.obs (spIC Rand3.S Rand3.Da Rand3.c) Rand3.fw (Sys.init Rand3.w0)
+      [.iter, .next, .stateDict, .fresh, .load 0, .iter, .next, .next, .next, .iter, .next, .next, .next, .next]).map flat =
+      [[0], [11, 0], [1], [0], [0], [0], [11, 1], [11, 2], [4], [0], [11, 1], [11, 2], [11, 0], [4]] :=
+  ⟨fun _ _ => rfl, by decide, by decide⟩
+
+/-- The `RandomSampler` configurations are in the scope of the `sdl_sp_*` theorems: for every generator and
+every `RandomSampler` that never draws an empty permutation there are epoch worlds and index streams satisfying
+`MapHyp` (the streams are the permutations drawn at each `iter()`). -/
+example {G : Type} (R : Gen G) (rc : RCfg) (draw : G → G) (hne : ∀ g, (getPerm R rc g).1 ≠ []) (w0 : RIter G × G) :
+    ∃ wS ixs, wS 0 = w0 ∧ (∀ g, ixs g = (RIter.epoch R rc (wS g).2).1.map .one) ∧
+      MapHyp (SP.bareSrc (randomNested R rc) false (SP.randSeed draw false)) (SP.mapData (fun i => some i) false)
+        ⟨false, fun _ => false⟩ id (fun _ _ => True) wS ixs :=
+  mapHyp_random R rc draw hne _ _ id rfl (fun _ _ => rfl) (fun _ => rfl) w0
+
+/-! ## The multi-process iterator, map-style, non-persistent workers -/
+section mp
+open TDV.MP TDV.MPR
+variable (c : Cfg) (hv : c.Valid) (hm : c.iterable = false) (hio : c.inOrder = true) (he : errFree c)
+include hv hm hio he
+
+/-- **`sdl_mp_map_resume_exact`.**  `sd = state_dict()` of a multi-process iterator after any `k` batches under
+any schedule.  With `persistent_workers = False` the façade (`Fac.getAssign`) builds the resumed loader's first
+iterator from `sd` (`MPR.restore`, replaying `steps_since_snapshot` batches) and a FRESH instance for every
+following epoch.  Whatever the schedules: the consumer of the resumed loader receives `drop k` of the reference
+stream in the first epoch and the whole stream in each of the `E` following epochs. -/
+theorem sdl_mp_map_resume_exact (as₁ : List Action) (s₁ : State) (hn₁ : NoReset as₁)
+    (hr₁ : MP.run c (init c) as₁ = some s₁) (hd₁ : ¬ died s₁)
+    (first : EpochRun c (restore c (stateDict s₁).1)) (rest : List (EpochRun c (init c))) :
+    yields s₁.obs = (oks (refStream c)).take (yields s₁.obs).length ∧
+    (yields first.s.obs).drop (stateDict s₁).2 :: rest.map (fun r => yields r.s.obs) =
+      (oks (refStream c)).drop (yields s₁.obs).length :: List.replicate rest.length (oks (refStream c)) := by
+  obtain ⟨h1, _, h3⟩ := resume_exact_map c hv hm hio he as₁ s₁ hn₁ hr₁ hd₁ first.as first.s first.noReset
+    first.run first.alive
+  exact ⟨h1, by rw [h3 first.stopped, mp_fresh_epochs c hv hm hio he rest]⟩
+
+end mp
+
+/-- Non-vacuity: the instance of `Props/C01MP.lean` (interval 3, two workers, 7 batches, checkpoint after
+`k = 4` between two snapshots), the resumed run to `StopIteration` (1 batch replayed), then a fresh epoch. -/
+example :
+    ∃ (s₁ : MP.State) (_ : MP.run MPR.exMap (MP.init MPR.exMap) MPR.exMapSave = some s₁)
+      (first : EpochRun MPR.exMap (MPR.restore MPR.exMap (MPR.stateDict s₁).1))
+      (r : EpochRun MPR.exMap (MP.init MPR.exMap)),
+      MP.yields s₁.obs = [100, 101, 102, 103] ∧ (MPR.stateDict s₁).2 = 1 ∧
+      (MP.yields first.s.obs).drop (MPR.stateDict s₁).2 = [104, 105, 106] ∧
+      MP.yields r.s.obs = [100, 101, 102, 103, 104, 105, 106] :=
+  ⟨(MP.run MPR.exMap (MP.init MPR.exMap) MPR.exMapSave).get (by decide), (Option.some_get _).symm,
+    EpochRun.ofSchedule _ _ MPR.exMapResume (by simp [MP.NoReset, MPR.exMapResume]) (by decide) (by decide) (by decide),
+    EpochRun.ofSchedule _ _ exMapFull (by simp [MP.NoReset, exMapFull]) (by decide) (by decide) (by decide),
+    by decide, by decide, by decide, by decide⟩
+
 end TDV.E2E
